@@ -20,6 +20,19 @@ class InjectedFault(RuntimeError):
     pass
 
 
+class InjectedCustomFault(Exception):
+    """A model error that is neither a ValueError, ArithmeticError nor RuntimeError (user megacomplexes raise what they like)."""
+
+
+def fault_instance(which):
+    """The exception a failing model evaluation raises: class chosen by the harness (symbolic finite choice)."""
+    msg = "injected model fault #42"
+    return [InjectedFault(msg), InjectedCustomFault(msg), KeyError(msg), ZeroDivisionError(msg), TypeError(msg)][which]
+
+
+N_FAULT_CLASSES = 5
+
+
 class AdversarialLeastSquares:
     """Stands for scipy.optimize.least_squares (trf, dogbox and lm alike).
 
